@@ -18,6 +18,7 @@ type Op struct {
 	Commit bool   `json:"commit,omitempty"` // txn: commit (else rollback)
 	D      int64  `json:"d,omitempty"`      // sleep: virtual milliseconds
 	RO     bool   `json:"ro,omitempty"`     // txn: read-only
+	Fill   byte   `json:"fill,omitempty"`   // put: the value's body is this byte repeated (0: pseudo-random bytes)
 	// txn only:
 	Scribble bool `json:"scribble,omitempty"` // caller overwrites its key/value buffers right after each tx.Put/Delete
 	Abandon  bool `json:"abandon,omitempty"`  // neither commit nor rollback
@@ -76,7 +77,13 @@ func (o Op) Value() []byte {
 	if o.Nil {
 		return nil
 	}
-	return MakeValue(o.Tag, o.Len)
+	v := MakeValue(o.Tag, o.Len)
+	if o.Fill != 0 {
+		for i := 8; i < len(v); i++ {
+			v[i] = o.Fill
+		}
+	}
+	return v
 }
 
 func MakeValue(tag uint32, n int) []byte {
